@@ -118,6 +118,13 @@ class TUP(Ty):
         return "tup(" + ",".join(map(repr, self.items)) + ")"
 
 
+class CPX(TUP):
+    """a Python complex: (real, imag) bit patterns; a type of its own so that arithmetic on it is not tuple concatenation"""
+
+    def __repr__(self):
+        return "complex"
+
+
 class SEQ(Ty):
     """Python list/tuple of homogeneous single-sort elements, value semantics."""
 
